@@ -70,6 +70,12 @@ type subModel struct {
 	done    chan struct{}
 }
 
+func (m *subModel) hasAnomaly() bool {
+	m.mu.Lock()
+	defer m.mu.Unlock()
+	return m.anomaly != ""
+}
+
 func (m *subModel) apply(n blockntfns.BlockNtfn) {
 	m.mu.Lock()
 	defer m.mu.Unlock()
@@ -227,23 +233,42 @@ func RunSubs(p SubsPlan, res *Result) {
 			return
 		}
 		for _, m := range subs {
-			m.mu.Lock()
-			an, top := m.anomaly, m.top
-			bad := ""
-			if an != "" {
-				bad = an
-			} else if top != ft {
-				bad = fmt.Sprintf("subscriber ends at height %d, the committed filter tip is %d", top, ft)
-			} else {
-				for h := uint32(0); h <= ft; h++ {
-					if m.chain[h] != chain[h] {
-						bad = fmt.Sprintf("subscriber's block at height %d is not the committed one", h)
-						break
+			judge := func() (bad string, ev int) {
+				m.mu.Lock()
+				defer m.mu.Unlock()
+				an, top := m.anomaly, m.top
+				if an != "" {
+					bad = an
+				} else if top != ft {
+					bad = fmt.Sprintf("subscriber ends at height %d, the committed filter tip is %d", top, ft)
+				} else {
+					for h := uint32(0); h <= ft; h++ {
+						if m.chain[h] != chain[h] {
+							bad = fmt.Sprintf("subscriber's block at height %d is not the committed one", h)
+							break
+						}
 					}
 				}
+				return bad, m.events
 			}
-			ev := m.events
-			m.mu.Unlock()
+			bad, ev := judge()
+			// A subscriber that is merely BEHIND (a backlog of hundreds of
+			// events handed over one by one by the client's forwarding
+			// goroutine, on a machine whose cores are all taken) is not wrong:
+			// the verdict is only given once its stream has been silent for
+			// 4 s on end (an event takes microseconds), re-armed by every
+			// event that still arrives. An anomaly of the stream itself
+			// (gap, wrong header) is final at once.
+			for quiet := 0; bad != "" && !m.hasAnomaly() && quiet < 40; {
+				time.Sleep(100 * time.Millisecond)
+				b2, e2 := judge()
+				if e2 != ev {
+					quiet = 0
+				} else {
+					quiet++
+				}
+				bad, ev = b2, e2
+			}
 			res.Count("subscriber_states_checked", 1)
 			if bad != "" {
 				res.Violate("c19/l2/replay-mismatch/"+when, fmt.Sprintf("subscriber %d (subscribed from height %d, %d events): %s", m.id, m.from, ev, bad), witness())
